@@ -129,5 +129,6 @@ pub fn scenario(role: Role, geo: (usize, u16, usize), seed: u64, handshake: bool
         gap_ack: flags.0,
         dally: flags.1,
         pre_existing: false,
+        fsize_limit: None,
     }
 }
